@@ -3,6 +3,7 @@
 -/
 import PG.Model.Trace
 import PG.Lemmas.ListBasics
+import PG.Lemmas.TraceRT
 namespace PG
 
 /-- frames of the property's domain: class and method without `(`, method without dots, a
@@ -33,24 +34,218 @@ structure TraceWF (t : Trace) : Prop where
   top_nonempty : t.top.exception.isSome = true ∨ t.top.frames ≠ []
   causes_wf : ∀ c ∈ t.causes, SegWF c ∧ c.exception.isSome = true
 
-theorem C17_frame (f : Frame) (h : FrameWF f) : parseFrame (printFrame f) = some f := by
-  sorry
+/-! ### helper lemmas -/
+
+theorem parseFrame_of_trim (f : Frame) (h : FrameWF f) (line : Bytes)
+    (ht : trim line = printFrame f) : parseFrame line = some f := by
+  obtain ⟨file, hfile, h58, _⟩ := h.file_some
+  rw [printFrame_eq f file hfile] at ht
+  rw [parseFrame_core line f.cls f.method file f.line h.cls_no_paren h.method_no_paren
+    h.method_no_dot h58 h.line_lt ht]
+  have hp := h.no_params
+  cases f
+  simp_all
+
+theorem trim_printFrame (f : Frame) (h : FrameWF f) : trim (printFrame f) = printFrame f := by
+  obtain ⟨file, hfile, _, _⟩ := h.file_some
+  rw [printFrame_eq f file hfile]
+  exact trim_a_paren _
+
+theorem trim_indent_printFrame (f : Frame) (h : FrameWF f) :
+    trim (litIndent ++ printFrame f) = printFrame f := by
+  obtain ⟨file, hfile, _, _⟩ := h.file_some
+  rw [printFrame_eq f file hfile]
+  exact trim_indent_a_paren _
+
+theorem trim_tab_printFrame (f : Frame) (h : FrameWF f) :
+    trim (9 :: printFrame f) = printFrame f := by
+  obtain ⟨file, hfile, _, _⟩ := h.file_some
+  rw [printFrame_eq f file hfile]
+  exact trim_tab_a_paren _
+
+/-- a line that can be split off by `strLines`: no line feed, no trailing carriage return -/
+def GoodLine (l : Bytes) : Prop := 10 ∉ l ∧ l.getLast? ≠ some 13
+
+theorem frameLine_parseFrame (f : Frame) (h : FrameWF f) :
+    parseFrame (litIndent ++ printFrame f) = some f :=
+  parseFrame_of_trim f h _ (trim_indent_printFrame f h)
+
+theorem frameLine_parseThrowable (f : Frame) (h : FrameWF f) :
+    parseThrowable (litIndent ++ printFrame f) = none := by
+  obtain ⟨file, hfile, _, _⟩ := h.file_some
+  refine parseThrowable_at _ (frameInner f.cls f.method file f.line ++ [41]) ?_
+  rw [trim_indent_printFrame f h, printFrame_eq f file hfile]
+  rfl
+
+theorem frameLine_good (f : Frame) (h : FrameWF f) : GoodLine (litIndent ++ printFrame f) := by
+  obtain ⟨file, hfile, _, hf10⟩ := h.file_some
+  have hd := natToDec_no_lf f.line
+  have hc := h.no_lf.1
+  have hm := h.no_lf.2
+  constructor
+  · rw [printFrame_eq f file hfile]
+    simp [frameInner, litIndent, hd, hc, hm, hf10]
+  · rw [printFrame_eq f file hfile]
+    have : litIndent ++ 97 :: ((116 :: 32 :: frameInner f.cls f.method file f.line) ++ [41]) =
+        (litIndent ++ 97 :: 116 :: 32 :: frameInner f.cls f.method file f.line) ++ [41] := by simp
+    rw [this, List.getLast?_append]
+    simp
+
+theorem throwable_parse (t : Throwable) (h : ThrowableWF t) :
+    parseThrowable (printThrowable t) = some t := by
+  unfold parseThrowable
+  simp only [h.trimmed]
+  have hs := h.cls_no_space
+  cases t with
+  | mk cls message =>
+    cases message with
+    | none =>
+      simp only [printThrowable] at *
+      simp [splitColonSpace_none cls hs, hs]
+    | some m =>
+      simp only [printThrowable, litColonSpace] at *
+      have : cls ++ [58, 32] ++ m = cls ++ 58 :: 32 :: m := by simp
+      simp only [this, splitColonSpace_first cls m hs]
+      simp [hs]
+
+theorem throwable_good (t : Throwable) (h : ThrowableWF t) : GoodLine (printThrowable t) :=
+  ⟨h.no_lf, trimmed_getLast _ h.trimmed⟩
+
+theorem causeLine_good (t : Throwable) (h : ThrowableWF t) :
+    GoodLine (litCausedBy ++ printThrowable t) := by
+  obtain ⟨h1, h2⟩ := throwable_good t h
+  constructor
+  · simp [litCausedBy, h1]
+  · rw [List.getLast?_append]
+    cases hp : (printThrowable t).getLast? with
+    | none => simp [litCausedBy]
+    | some b => rw [hp] at h2; simpa using h2
+
+theorem causeLine_parseFrame (p : Bytes) : parseFrame (litCausedBy ++ p) = none := by
+  unfold parseFrame
+  show (match stripPrefix litAt (trim (67 :: _)) with | none => none | some body => _) = none
+  rw [stripPrefix_litAt_trim_C]
+
+theorem causeLine_strip (p : Bytes) : stripPrefix litCausedBy (litCausedBy ++ p) = some p :=
+  stripPrefix_append _ _
+
+/-! ### `parseTraceLines` over the printed lines -/
+
+theorem ptl_frames (done : List Seg) (cur : Seg) (fs : List Frame) (rest : List Bytes)
+    (h : ∀ f ∈ fs, FrameWF f) :
+    parseTraceLines done cur (frameLines fs ++ rest) =
+      parseTraceLines done { cur with frames := cur.frames ++ fs } rest := by
+  induction fs generalizing cur with
+  | nil => simp [frameLines]
+  | cons f fs ih =>
+    have hf := h f (by simp)
+    have := ih { cur with frames := cur.frames ++ [f] } (fun g hg => h g (by simp [hg]))
+    simp only [frameLines, List.map_cons, List.cons_append] at this ⊢
+    rw [parseTraceLines, frameLine_parseFrame f hf]
+    simp only [this, List.append_assoc, List.singleton_append]
+
+theorem ptl_cause (done : List Seg) (cur c : Seg) (rest : List Bytes)
+    (hc : SegWF c) (hs : c.exception.isSome = true) :
+    parseTraceLines done cur (causeLines c ++ rest) = parseTraceLines (done ++ [cur]) c rest := by
+  cases c with
+  | mk exc fs =>
+    cases exc with
+    | none => simp at hs
+    | some e =>
+      have he := hc.1 e rfl
+      simp only [causeLines, List.cons_append]
+      rw [parseTraceLines, causeLine_parseFrame, causeLine_strip]
+      simp only [throwable_parse e he]
+      rw [ptl_frames _ _ fs rest hc.2]
+      simp
+
+theorem ptl_causes (done : List Seg) (cur : Seg) (cs : List Seg)
+    (h : ∀ c ∈ cs, SegWF c ∧ c.exception.isSome = true) :
+    parseTraceLines done cur (cs.flatMap causeLines) = done ++ cur :: cs := by
+  induction cs generalizing done cur with
+  | nil => simp [parseTraceLines]
+  | cons c cs ih =>
+    have hc := h c (by simp)
+    rw [List.flatMap_cons, ptl_cause done cur c _ hc.1 hc.2,
+      ih _ _ (fun x hx => h x (by simp [hx]))]
+    simp
+
+theorem traceLines_good (t : Trace) (h : TraceWF t) : ∀ l ∈ traceLines t, GoodLine l := by
+  intro l hl
+  simp only [traceLines, segLines, List.mem_append, List.mem_flatMap] at hl
+  rcases hl with (hl | hl) | ⟨c, hc, hl⟩
+  · cases he : t.top.exception with
+    | none => simp [he, excLines] at hl
+    | some e =>
+      simp only [he, excLines, List.mem_singleton] at hl
+      subst hl
+      exact throwable_good e (h.top_wf.1 e he)
+  · simp only [frameLines, List.mem_map] at hl
+    obtain ⟨f, hf, rfl⟩ := hl
+    exact frameLine_good f (h.top_wf.2 f hf)
+  · obtain ⟨hwf, hs⟩ := h.causes_wf c hc
+    simp only [causeLines, List.mem_cons] at hl
+    rcases hl with rfl | hl
+    · cases he : c.exception with
+      | none => simp [he] at hs
+      | some e => exact causeLine_good e (hwf.1 e he)
+    · simp only [frameLines, List.mem_map] at hl
+      obtain ⟨f, hf, rfl⟩ := hl
+      exact frameLine_good f (hwf.2 f hf)
+
+theorem strLines_printTrace (t : Trace) (h : TraceWF t) :
+    strLines (printTrace t) = traceLines t := by
+  rw [printTrace_eq_join t (fun c hc => (h.causes_wf c hc).2)]
+  exact strLines_join _ (traceLines_good t h)
+
+/-! ### the theorems -/
+
+theorem C17_frame (f : Frame) (h : FrameWF f) : parseFrame (printFrame f) = some f :=
+  parseFrame_of_trim f h _ (trim_printFrame f h)
 
 /-- indentation (four spaces or a tab) in front of a printed frame is tolerated -/
 theorem C17_frame_indented (f : Frame) (h : FrameWF f) :
-    parseFrame (litIndent ++ printFrame f) = some f ∧ parseFrame (9 :: printFrame f) = some f := by
-  sorry
+    parseFrame (litIndent ++ printFrame f) = some f ∧ parseFrame (9 :: printFrame f) = some f :=
+  ⟨frameLine_parseFrame f h, parseFrame_of_trim f h _ (trim_tab_printFrame f h)⟩
 
 theorem C17_throwable (t : Throwable) (h : ThrowableWF t) :
-    parseThrowable (printThrowable t) = some t := by
-  sorry
+    parseThrowable (printThrowable t) = some t :=
+  throwable_parse t h
 
 theorem C17_trace (t : Trace) (h : TraceWF t) : parseTrace (printTrace t) = some t := by
-  sorry
+  unfold parseTrace
+  simp only [strLines_printTrace t h]
+  have hcs := ptl_causes
+  cases t with
+  | mk top causes =>
+    cases top with
+    | mk exc fs =>
+      have hwf := h.top_wf
+      have hne := h.top_nonempty
+      have hcw := h.causes_wf
+      simp only at hwf hne hcw
+      cases exc with
+      | some e =>
+        have he := hwf.1 e rfl
+        simp only [traceLines, segLines, excLines, List.singleton_append, List.cons_append,
+          List.nil_append, throwable_parse e he]
+        rw [ptl_frames _ _ fs _ hwf.2, ptl_causes _ _ causes hcw]
+        simp
+      | none =>
+        cases fs with
+        | nil => simp at hne
+        | cons f fs =>
+          have hf := hwf.2 f (by simp)
+          simp only [traceLines, segLines, excLines, List.nil_append, frameLines, List.map_cons,
+            List.cons_append, frameLine_parseThrowable f hf]
+          have := ptl_frames [] ⟨none, []⟩ (f :: fs) (causes.flatMap causeLines) hwf.2
+          simp only [frameLines, List.map_cons, List.cons_append] at this
+          rw [this, ptl_causes _ _ causes hcw]
+          simp
 
 theorem C17_reprint (t : Trace) (h : TraceWF t) :
     (parseTrace (printTrace t)).map printTrace = some (printTrace t) := by
-  sorry
+  rw [C17_trace t h]; rfl
 
 /-- non-vacuity: a two-level trace inside the domain -/
 example : TraceWF ⟨⟨some ⟨[97, 46, 98], some [120, 58, 32, 121]⟩, [⟨[97], [109], 7, some [70], none⟩]⟩,
